@@ -177,7 +177,7 @@ func (e *Engine) verifyFuncGroup(fn *ssa.Function, spec *FuncSpec, prop, group s
 	// return-reachability probes: up to 8 return paths, evenly spread over the explored ones
 	// (the first paths of a depth-first exploration are often the infeasible corner cases)
 	if n := len(x.retCovers); n > 0 {
-		k := 8
+		k := 5
 		if n < k {
 			k = n
 		}
